@@ -551,6 +551,17 @@ def run(ctx):
                 cases.append(rand_case(rng, wh_lo=4, wh_hi=10, nmin=nimg, nmax=nimg, force_grid=(i % 2 == 0), comp=(i % 4 == 0),
                                        dose_mode="distinct", form=FORMS[i % len(FORMS)],
                                        doses_as=["array", "list", "file", "csv"][i % 4]))
+            # the single-image stack once per dose form and once per storage form; sizes 2, 8, 9 with the dose as a list -
+            # in EVERY run, whatever the seed (a one-element dose list / 0-d dose array is a classic special case)
+            for i, how in enumerate(["list", "array", "file", "csv"]):
+                cases.append(rand_case(rng, wh_lo=4, wh_hi=7, nmin=1, nmax=1, force_grid=(i % 2 == 0), comp=(i == 0),
+                                       dose_mode="distinct", form="xyz_c", doses_as=how))
+            for i, frm in enumerate(FORMS):
+                cases.append(rand_case(rng, wh_lo=4, wh_hi=7, nmin=1, nmax=1, force_grid=(i % 2 == 1), comp=False,
+                                       dose_mode="distinct", form=frm, doses_as=["list", "array"][i % 2]))
+            for i, nimg in enumerate([2, 8, 9]):
+                cases.append(rand_case(rng, wh_lo=4, wh_hi=7, nmin=nimg, nmax=nimg, force_grid=True, comp=(i == 0),
+                                       dose_mode="distinct", form=FORMS[i], doses_as="list"))
             for i, frm in enumerate(FORMS):
                 c = rand_case(rng, area_cap=300, nmin=2, nmax=5, comp=(i % 2 == 0), form=frm, force_grid=True)
                 c["xcheck"] = [["mrc", "st", "em", "rec", "ali"][i % 5], ["mrc", "st", "em", "rec", "ali"][(i + 2) % 5]]
